@@ -84,6 +84,17 @@ class TracedState(dict):
     def get(self, k, default=None):
         return self[k] if k in self else default
 
+    # copies and pickles of the session state (externalisation) are plain dictionaries
+    def __deepcopy__(self, memo):
+        import copy
+        return {copy.deepcopy(k, memo): copy.deepcopy(v, memo) for k, v in dict.items(self)}
+
+    def __copy__(self):
+        return dict(dict.items(self))
+
+    def __reduce__(self):
+        return (dict, (dict(dict.items(self)),))
+
     def __setitem__(self, k, v):
         dict.__setitem__(self, k, v)
         if k == self._key:
@@ -132,8 +143,8 @@ def anchor_map(anchors=None, required=None):
 
 
 class Worker:
-    def __init__(self, ctl, rid, fn):
-        self.ctl, self.rid, self.fn = ctl, rid, fn
+    def __init__(self, ctl, rid, fn, gated=False):
+        self.ctl, self.rid, self.fn, self.gated = ctl, rid, fn, gated
         self.go = threading.Event()
         self.parked_at = None       # action name of the anchor it is parked at
         self.finished = False
@@ -148,6 +159,8 @@ class Worker:
         _tls.worker = self
         sys.settrace(self._global_trace)
         try:
+            if self.gated:
+                self._park("G")     # a request without anchors of its own runs as one step, when the controller says so
             self.result = self.fn()
         except BaseException as e:       # noqa
             self.error = e
@@ -223,8 +236,8 @@ class Controller:
         self._lin_read = {}     # rid -> (position in events, state) at its last read of the lock flag inside try_lock
         self.no_loop = set()    # requests that have no stepping loop at all (rejected bodies): no synthetic loop-exit Read
 
-    def spawn(self, rid, fn):
-        w = Worker(self, rid, fn)
+    def spawn(self, rid, fn, gated=False):
+        w = Worker(self, rid, fn, gated)
         self.workers[rid] = w
         w.thread.start()
         self._wait(w)
